@@ -70,17 +70,12 @@ def judge_a(t):
         if c.site != 'symtab.genCode' or not c.ok:
             continue
         # a module counts as parsed once its whole file went through (checked against attempts_of below)
-    taken_names = set()
+    # a module counts as parsed when the whole file it came in went through; the copy taken first is the one that counts
     for a_ in cs.attempts_of(t):
-        if a_['ok']:
+        if a_['ok'] and a_['info'] is not None:
             for (m, _x, _y) in a_['mods']:
-                taken_names.add((m, a_['name']))
-    last_info = None
-    for c in t.calls:
-        if c.site == 'src.getData':
-            last_info = c.res[0] if c.ok else None
-        elif c.site == 'symtab.genCode' and c.ok and last_info is not None and (c.mib, c.ctx) in taken_names and c.mib not in parsed:
-            parsed[c.mib] = (last_info, c.ctx)          # the copy taken first is the one that counts
+                if m not in parsed:
+                    parsed[m] = (a_['info'], a_['name'])
     true_mtime = {}
     if not scn.get('realfs') and not scn.get('callback_sources'):
         for a_ in cs.attempts_of(t):
